@@ -153,6 +153,9 @@ func c08(r *Report) propMeta {
 	r.Rule("C08.iter", "E14 store-iterator loops run to exhaustion")
 	r.IteratorLoopCensus("iter", []string{"x/tunnel/"}, nil, 3)
 
+	// a handler that swallows an error commits partial state (C13.R8)
+	r.Include("C13", "C13.R8")
+
 	return propMeta{
 		Decided: []string{
 			"R1 CreatePacket/DeductBasePacketFee/SetLatestPrices on the end-block path are under ProduceActiveTunnelPacket's CacheContext whose writeFn is gated by ProducePacket==nil; both routes sit under SendPacket's defer-recover that assigns the NAMED error result; latest prices are written only after CreatePacket and SendPacket succeeded",
